@@ -82,21 +82,30 @@ func (x *c04) r7() {
 	msg := ""
 	// the loop variables by role: the level is what walkFn receives as its first
 	// argument; the table address is the other pointer-sized variable of that loop
-	var levelPhi, tablePhi *ssa.Phi
+	// (the level may be the loop's own variable or a conversion of another
+	// counter, `level = uint8(i)`: what matters is its value per iteration)
+	var levelPhi ssa.Value
+	var tablePhi *ssa.Phi
 	var call *ssa.Call
 	for _, in := range g.Ins {
 		if cl, ok := in.(*ssa.Call); ok && cl.Common().Value == ssa.Value(wfn) {
 			call = cl
 		}
 	}
-	if call != nil && len(call.Common().Args) > 0 {
-		levelPhi, _ = stripConv(call.Common().Args[0]).(*ssa.Phi)
-	}
-	if levelPhi != nil {
-		for _, in := range levelPhi.Block().Instrs {
-			if phi, ok := in.(*ssa.Phi); ok && phi != levelPhi && isIntegral(phi.Type()) && intWidth(phi.Type()) != 8 {
-				if bt, ok := phi.Type().Underlying().(*types.Basic); ok && bt.Kind() == types.Uintptr {
-					tablePhi = phi
+	if call != nil && len(call.Common().Args) > 1 {
+		levelPhi = stripConv(call.Common().Args[0])
+		var ea ssa.Value
+		if pc, ok := ptrSource(call.Common().Args[1]).(*ssa.Call); ok && len(pc.Common().Args) > 0 {
+			ea = pc.Common().Args[0]
+		} else {
+			ea = ptrFromUintptr(call.Common().Args[1])
+		}
+		if ea != nil {
+			if add, ok := stripConv(ea).(*ssa.BinOp); ok && add.Op == token.ADD {
+				if phi, ok := stripConv(add.X).(*ssa.Phi); ok {
+					if bt, ok := phi.Type().Underlying().(*types.Basic); ok && bt.Kind() == types.Uintptr {
+						tablePhi = phi
+					}
 				}
 			}
 		}
@@ -113,15 +122,6 @@ func (x *c04) r7() {
 	case levelPhi == nil || tablePhi == nil || call == nil:
 		msg = "walk no longer has the level / tableAddr loop calling walkFn"
 	default:
-		// level: 0, +1, < pageLevels
-		lvOK := false
-		for _, e := range levelPhi.Edges {
-			if b, ok := stripConv(e).(*ssa.BinOp); ok && b.Op == token.ADD && stripConv(b.X) == ssa.Value(levelPhi) {
-				if k, ok := constInt64(b.Y); ok && k == 1 {
-					lvOK = true
-				}
-			}
-		}
 		// in induction form: level = T, for pageLevels iterations (whichever way the
 		// loop is written: a header test level < pageLevels, `for level := range n`)
 		tripsOK := false
@@ -134,7 +134,7 @@ func (x *c04) r7() {
 			tripsOK = okA && c0 && f0 == 0 && c1 && s1 == 1 && lf.TripsOK && ct && uint64(tk) == x.levels
 			lf.Done()
 		}
-		if !lvOK || !tripsOK {
+		if !tripsOK {
 			msg = "the walk does not visit levels 0..pageLevels-1 in order"
 		}
 		// entry address passed to walkFn: tableAddr + (((virt >> shifts[level]) & ((1<<bits[level])-1)) << PointerShift)
